@@ -748,7 +748,7 @@ def scenario_walk(a, steps, viol, rehash=False):
         a.sync()
     if rehash:
         a.rehash()
-        if rng.random() < 0.6:
+        if rng.random() < 0.8:
             # aimed at the per-disk rehash slots: a stripe with an error on disk Y while the short disk X hashes fine,
             # followed in the same run by verified stripes where X has no block; afterwards everything is repaired by
             # hand and a full scrub must verify every stripe (the new hashes must have gone to the right blocks only)
@@ -756,7 +756,9 @@ def scenario_walk(a, steps, viol, rehash=False):
             cand = [(y, q) for q in range(a.alloc[x]) for y in a.disks if y != x and q in a.owner[y] and q in a.owner[x]]
             holes = [q for q in range(a.alloc[x], max(a.alloc.values()))]
             if cand and holes:
-                for (y, q) in rng.sample(cand, min(len(cand), rng.randrange(1, 3))):
+                # the stripe that matters is the LAST one where X has a block (later stripes of X would overwrite the slot)
+                last = [(y, q) for (y, q) in cand if q == a.alloc[x] - 1]
+                for (y, q) in (last[:1] if last else []) + rng.sample(cand, min(len(cand), rng.randrange(0, 2))):
                     a.corrupt_data(y, q)
                 a.scrub('full' if rng.random() < 0.6 else 100, None if rng.random() < 0.6 else 0, dt=DAY, tag='rehash_slots')
                 a.heal()
